@@ -379,7 +379,7 @@ def run(ctx):
     else:
         small = pool
     ctx.bounds = {"small_integer_instances": len(small), "n_small": "2 (all SPD with entries -3..4), 3 and 4 (seeded L*L')",
-                  "random_larger_instances": 600 if quick else 6000, "n_large_max": 12}
+                  "random_larger_instances": 600 if quick else 40000, "n_large_max": 12}
     res = ctx.tlc("Nnls", CFG_MC.format(rep="TRUE", maxsteps=40), env=insts_file(ctx, small, "insts.json"), tag="MC_Nnls", timeout=1700)
     ctx.exhaustive = True
     opt = {}
@@ -408,7 +408,7 @@ def run(ctx):
         recs.extend(part)
     # inversion level (real aa.Inversion objects on lattice datasets): settings matrix, forced zeros, per-object model data
     from harness.drivers import inv_common as ic
-    n_inv = 24 if quick else 240
+    n_inv = 24 if quick else 600
     invs = []
     while len(invs) < n_inv:
         i = ic.random_instance(rng, H=7, W=7, interior=3, layouts=("m", "mf", "fm", "mm", "fmf"), kshapes=((1, 1), (3, 3), (1, 3), (3, 1)),
